@@ -121,7 +121,11 @@ def _coq_case(case, expected):
     while i < len(t):
         if t[i] == "q":
             tmo = int(t[i + 2], 16)
-            reqs.append("mk_rcfg %s %s %s" % (n(t[i + 1]), "(Some %d)" % tmo if tmo else "None", n(t[i + 3])))
+            if tmo == 0xFFFFFFFFFFFFFFFF:
+                tmo_term = "(Some 0)"     # a timeout of zero is configured
+            else:
+                tmo_term = "(Some %d)" % tmo if tmo else "None"
+            reqs.append("mk_rcfg %s %s %s" % (n(t[i + 1]), tmo_term, n(t[i + 3])))
             i += 6
         else:
             i += 3
